@@ -4,6 +4,7 @@
 From Coq Require Import List NArith Bool Lia.
 From Verif Require Import Chain.Model Chain.Proofs Chain.ProofsWalk Chain.ProofsSys Chain.ProofsTx Chain.ProofsAccept
   Chain.ProofsChainInv Chain.ProofsChainDep Chain.Replay Chain.Examples.
+From Verif Require Header.Rules Validation.Body Compose.Replay Compose.ReplayExamples.
 Import ListNotations.
 Open Scope N_scope.
 
@@ -177,3 +178,83 @@ Print Assumptions accepted_block_step_partial.
 Print Assumptions accepted_chain_inv.
 Print Assumptions accepted_chain_dependency.
 Print Assumptions has_tx_paths_agree_on_accepted.
+
+(* ================================================================ composition *)
+(* C09 <-> C02 (Compose/Replay.v).  `validate` above is this area's own transcription of the replay / window / dependency
+   rules of consensus/validator.go; C02's model of consensus.Process (Validation/Body.v) is another one, with abstract chain
+   lookups.  With those lookups instantiated by this repository's has_transaction / get_tx_meta on the parent's chain the two
+   agree (Properties/C02.v 6-8), so the premise "every block passed validate" of 6 and 7 above is discharged for every
+   history of blocks accepted by C02's Process (Replay.c02_accepted: Process run with whatever fork configuration, proposer
+   view, parent header, state and clock; the stored receipts carry the reverted flags Process returned). *)
+Section Composition.
+  Variable State : Type.
+  Variable exec : Header.Rules.bctx -> State -> Validation.Body.txn -> option (State * Validation.Body.receipt).
+  Variable apply_updates : bool -> N -> State -> list (N * bool) -> State.
+  Variable rewards : Header.Rules.bctx -> State -> option State.
+  Variable sanity : State -> bool.
+  Variable root_of_state : State -> N.
+  Variable root_of_receipts : list Validation.Body.receipt -> N.
+  Variable root_of_txs : list Validation.Body.txn -> N.
+  Variables g gp tag : N.
+  Variable U : txrec -> Prop.
+  Notation c02_accepted := (Replay.c02_accepted State exec apply_updates rewards sanity root_of_state root_of_receipts root_of_txs U).
+
+  (* 9. a block C02's Process accepts passes validate *)
+  Theorem c02_accepted_block_validates cfg pv parent st0 b now r cb st rcs :
+    Replay.linked cfg parent r b cb -> Replay.lookups_total r (b_parent cb) ->
+    map rc_rev (b_rcs cb) = map Validation.Body.r_reverted rcs ->
+    Replay.process_on State exec apply_updates rewards sanity root_of_state root_of_receipts root_of_txs
+      r (b_parent cb) cfg pv parent st0 b now = Validation.Body.Accepted State st rcs ->
+    validate r cb = V_ok.
+  Proof. exact (Replay.process_accepted_validates State exec apply_updates rewards sanity root_of_state root_of_receipts root_of_txs cfg pv parent st0 b now r cb st rcs). Qed.
+
+  (* 10. a block C02's Process rejects with the code of a rule modelled here is rejected by validate with that verdict *)
+  Theorem c02_rejected_block_same_verdict cfg pv parent st0 b now r cb c v :
+    Replay.linked cfg parent r b cb -> Replay.lookups_total r (b_parent cb) ->
+    (forall ctx st1, Replay.start_of State apply_updates cfg pv parent st0 b = Some (ctx, st1) ->
+                     map rc_rev (b_rcs cb) = Replay.exec_flags State exec ctx st1 (Validation.Body.b_txs b)) ->
+    Replay.process_on State exec apply_updates rewards sanity root_of_state root_of_receipts root_of_txs
+      r (b_parent cb) cfg pv parent st0 b now = Validation.Body.Rejected State (Header.Rules.Critical c) ->
+    Replay.replay_class c = Some v ->
+    validate r cb = v.
+  Proof. exact (Replay.process_replay_reject_same_verdict State exec apply_updates rewards sanity root_of_state root_of_receipts root_of_txs cfg pv parent st0 b now r cb c v). Qed.
+
+  (* 11. the lookups never fail on a stored parent of a reachable repository (2 and 4 above): the premise of 9 and 10 *)
+  Theorem lookups_total_on_histories adm r p : num_of g = 0 -> num_of gp = max_u32 ->
+    reachable g gp tag adm r -> stored r p -> Replay.lookups_total r p.
+  Proof. exact (Replay.lookups_total_reachable g gp tag adm r p). Qed.
+
+  (* 12. theorems 6 and 7 for chains of blocks accepted by C02's Process *)
+  Theorem c02_accepted_chain_inv :
+    (forall t1 t2, U t1 -> U t2 -> tx_id t1 = tx_id t2 -> t1 = t2) -> num_of g = 0 -> num_of gp = max_u32 ->
+    forall r, reachable g gp tag c02_accepted r -> forall h, stored r h ->
+      (forall a t, anc r h a -> tx_in r a t -> U t /\ tx_tag t = tag /\ tx_ref t <= num_of a /\ num_of a <= tx_ref t + tx_exp t) /\
+      (forall a1 t1 a2 t2, anc r h a1 -> anc r h a2 -> tx_in r a1 t1 -> tx_in r a2 t2 -> tx_id t1 = tx_id t2 -> a1 = a2) /\
+      (forall a s b, anc r h a -> get_block r a = Some (s, b) -> NoDup (map tx_id (b_txs b))).
+  Proof. exact (Replay.c02_chain_at_most_once_in_window State exec apply_updates rewards sanity root_of_state root_of_receipts root_of_txs g gp tag U). Qed.
+
+  Theorem c02_accepted_chain_dependency : num_of g = 0 -> num_of gp = max_u32 ->
+    forall r, reachable g gp tag c02_accepted r -> forall h, stored r h ->
+      forall a i t rc d, anc r h a -> tx_at r a i t rc -> tx_dep t = Some d ->
+        exists a' i' t' rc', anc r h a' /\ tx_at r a' i' t' rc' /\ tx_id t' = d /\ rc_rev rc' = false /\
+                             (num_of a' < num_of a \/ (a' = a /\ (i' < i)%nat)).
+  Proof. exact (Replay.c02_chain_dependency State exec apply_updates rewards sanity root_of_state root_of_receipts root_of_txs g gp tag U). Qed.
+End Composition.
+
+(* non-vacuity of 12: the example history is a history of blocks accepted by C02's Process (premises of 12 all met);
+   and both models reject the same concrete blocks on top of it with the same verdict (duplicate, reverted / unknown
+   dependency, expired, foreign chain tag, future ref; per branch) *)
+Example ex_c09_accepted_by_c02 :
+  (forall t1 t2, ReplayExamples.x_U t1 -> ReplayExamples.x_U t2 -> tx_id t1 = tx_id t2 -> t1 = t2) /\
+  num_of ex_g = 0 /\ num_of ex_gp = max_u32 /\
+  reachable ex_g ex_gp ex_tag
+    (Replay.c02_accepted N ReplayExamples.x_exec (fun _ _ st _ => st) (fun _ st => Some (st + 1)) (fun _ => true) (fun st => st)
+                         (fun rs => N.of_nat (length rs)) (fun ts => N.of_nat (length ts)) ReplayExamples.x_U) ex_r4.
+Proof. exact ReplayExamples.fork_history_accepted_by_c02. Qed.
+
+Print Assumptions c02_accepted_block_validates.
+Print Assumptions c02_rejected_block_same_verdict.
+Print Assumptions lookups_total_on_histories.
+Print Assumptions c02_accepted_chain_inv.
+Print Assumptions c02_accepted_chain_dependency.
+Print Assumptions ex_c09_accepted_by_c02.
